@@ -25,12 +25,12 @@ ASSUMPTIONS = ['the instant now == expiry is don\'t-care; validity is demanded a
                '(non-canonical base64 of the same MAC): never attacker-chosen content',
                'the client jar keeps sending a cookie past its Expires attribute (a stale or hostile client)']
 REQUIRED_REACH = ['intact-roundtrip', 'nonempty-cookie-seen', 'expired-server-side', 'valid-before-expiry', 'tamper:flip-mac',
-                  'tamper:flip-payload', 'tamper:truncate', 'tamper:extend', 'tamper:swap', 'tamper:other-key', 'tamper:random',
+                  'tamper:flip-payload', 'tamper:truncate', 'tamper:extend', 'tamper:swap', 'tamper:other-key', 'tamper:other-server', 'server-with-a-secret-of-its-own', 'tamper:random',
                   'tamper:non-ascii', 'tamper:bad-b64-mac', 'tamper:bad-b64-value', 'tamper:missing-sep', 'tamper:quotes',
                   'tamper-rejected', 'expiry:session', 'expiry:never', 'expiry:numeric', 'clients:3']
 NSHARDS = 16
 KEYS = ['a', 'user', 'k 1', 'é', 'x=y&z', 'list', 'n', '0', 'long' * 10]
-TAMPERS = ['flip-mac', 'flip-payload', 'truncate', 'extend', 'swap', 'other-key', 'random', 'non-ascii', 'bad-b64-mac',
+TAMPERS = ['flip-mac', 'flip-payload', 'truncate', 'extend', 'swap', 'other-key', 'other-server', 'random', 'non-ascii', 'bad-b64-mac',
            'bad-b64-value', 'missing-sep', 'quotes']
 
 
@@ -88,7 +88,13 @@ class World(object):
         self.arg = rng.pick(['cookie', 'cookie', 'session', 'sess2'])
         self.cname = rng.pick([None, 'sid', 'my-cookie'])
         self.key = bytes(rng.getrandbits(8) for _ in range(20))
-        self.mw = ck.SignedCookieMiddleware(arg_name=self.arg, cookie_name=self.cname, secret_key=self.key, expiry=self.expiry)
+        self.keyless = rng.chance(0.3)      # no secret_key given: the middleware draws a secret of its own
+        if self.keyless:
+            sh.hit('server-with-a-secret-of-its-own')
+            self.mw = ck.SignedCookieMiddleware(arg_name=self.arg, cookie_name=self.cname, expiry=self.expiry)
+        else:
+            self.mw = ck.SignedCookieMiddleware(arg_name=self.arg, cookie_name=self.cname, secret_key=self.key, expiry=self.expiry)
+        self.sister = None
         self.cookie_name = self.mw.cookie_name
         sh.hit('expiry:' + self.expiry_kind)
         src = ('def ep(request, %s):\n    return _run(request, %s)\n' % (self.arg, self.arg))
@@ -106,6 +112,7 @@ class World(object):
         ns = {'_run': _run}
         exec(src, ns)
         self.app = Application([Route('/c', ns['ep'])], middlewares=[self.mw])
+        self._ep = ns['ep']
         self.clients = [{'jar': None, 'data': {}, 'expires': None} for _ in range(rng.randint(1, 3))]
         if len(self.clients) == 3:
             sh.hit('clients:3')
@@ -277,6 +284,22 @@ class World(object):
         elif kind == 'other-key':
             forged = self.ck.JSONCookie({'admin': True, 'user': 'root'}, secret_key=b'attacker-key')
             out = forged.serialize().decode('ascii')
+        elif kind == 'other-server':
+            # a cookie minted by another application in this process whose middleware was given no key either
+            # (every server has a secret of its own)
+            from clastic import Application, Route
+            if self.sister is None:
+                self.sister = Application([Route('/c', self._ep)], middlewares=[
+                    self.ck.SignedCookieMiddleware(arg_name=self.arg, cookie_name=self.cname, expiry=self.expiry)])
+            from urllib.parse import quote
+            exs = probe.request(self.sister, 'GET', '/c', 'op=' + quote(json.dumps(['set', 'admin', True])))
+            out = None
+            for sc in exs.header_all('Set-Cookie'):
+                name, _, rest = sc.partition('=')
+                if name.strip() == self.cookie_name:
+                    out = rest.split(';', 1)[0]
+            if out is None:
+                return None
         elif kind == 'random':
             out = ''.join(rng.pick('abcXYZ019+/=?&%') for _ in range(rng.randint(1, 60)))
         elif kind == 'non-ascii':
